@@ -86,6 +86,14 @@ impl ResponseOutputFormat {
                         .join(",")
                 };
 
+                // a record that consists of one empty field is written as "" (RFC 4180 writers do
+                // the same): a blank line would be skipped by CSV readers
+                let row = if row.is_empty() {
+                    String::from("\"\"")
+                } else {
+                    row
+                };
+
                 if !errors.is_empty() {
                     let csv_errors = json![{"csv": json![errors]}];
                     // never replace an error already recorded for this query (e.g. by the search)
